@@ -39,6 +39,7 @@ type c13f4 struct {
 	ttl, proto, tos     int
 	opt, pl             []byte
 	passthrough, reject bool // by the reference reading of RFC 791 / the documented checks
+	overLimit           bool // FragOffset above the implementation's limit 8183 (RFC 791 allows up to 8191)
 }
 
 func (f c13f4) op() string {
@@ -72,7 +73,8 @@ func c13parse4(arg string) (c13f4, error) {
 	f.passthrough = f.flags&2 != 0 || (f.flags&1 == 0 && f.off == 0)
 	// the documented checks, in exact arithmetic
 	fs := f.length - 4*f.ihl
-	f.reject = (f.flags&1 != 0 && fs < 8) || f.off > 8183 || f.off*8+f.length > 65535 || fs < 0
+	f.overLimit = f.off > 8183
+	f.reject = (f.flags&1 != 0 && fs < 8) || f.off > 8191 || f.off*8+f.length > 65535 || fs < 0
 	return f, nil
 }
 
@@ -402,6 +404,11 @@ func (c13) Run(c Case) Result {
 				}
 			}
 			ki := keys4[k]
+			if ki != nil && ki.valid && rd.presence != 2 && f.overLimit && kind == "err" {
+				// a fragment of a valid datagram refused because of its offset: RFC 791 allows offsets up to 8191
+				fail("C13:offset-limit", fmt.Sprintf("step %d: fragment of a valid %d-byte datagram refused, FragOffset %d > 8183", step, len(ki.original), f.off))
+				rd.presence = 2
+			}
 			if ki != nil && ki.valid && rd.presence != 2 {
 				idx := -1
 				for i, g := range ki.frags {
@@ -439,7 +446,7 @@ func (c13) Run(c Case) Result {
 					rd.presence = 1
 				}
 				rd.times = append(rd.times, f.ts)
-			case kind == "err" && f.reject:
+			case kind == "err" && (f.reject || f.overLimit):
 				// rejected before any state is touched
 			default:
 				rd.presence = 2
@@ -1175,6 +1182,24 @@ func (g *c13gen) v6Case(hostile bool) Case {
 	return Case{Prop: "C13", Ops: ops}
 }
 
+// offsetLimitCase: a valid datagram whose last fragment starts above byte 8*8183
+func (g *c13gen) offsetLimitCase() Case {
+	k := g.key()
+	n := 65473 + g.rng.Intn(40)
+	pl := g.bytes(n)
+	cut := 8 * (8184 + g.rng.Intn((n-1)/8-8184+1))
+	mid := 8 * (1 + g.rng.Intn(cut/8-1))
+	var fr []c13f4
+	for _, p := range [][2]int{{0, mid}, {mid, cut}, {cut, n}} {
+		fl := 1
+		if p[1] == n {
+			fl = 0
+		}
+		fr = append(fr, c13f4{src: k.src, dst: k.dst, id: k.id, ihl: 5, length: 20 + p[1] - p[0], flags: fl, off: p[0] / 8, ttl: 7, proto: 17, pl: pl[p[0]:p[1]]})
+	}
+	return Case{Prop: "C13", Ops: g.arrival([][]c13f4{fr}, 0, false)}
+}
+
 func (c13) Gen(rng *rand.Rand, tier string) []Case {
 	g := &c13gen{rng: rng, ts: 1000}
 	var out []Case
@@ -1210,5 +1235,6 @@ func (c13) Gen(rng *rand.Rand, tier string) []Case {
 		out = append(out, g.v6Case(i%2 == 1))
 	}
 	out = append(out, g.tooManyCase(0), g.tooManyCase(1))
+	out = append(out, g.offsetLimitCase())
 	return out
 }
